@@ -132,7 +132,17 @@ let cmd_file d t =
   let f = read_flags t in
   let nch = next_int t in
   let chunks = List.init nch (fun _ -> let xs = read_nums t in let tb = read_table t in (xs, tb)) in
-  res_str (fun bs -> "ok " ^ hex_of_bytes bs) (M.file_bytes d f chunks)
+  let r = M.file_bytes d f chunks in
+  (* cross-check: the compressor as BitWriter calls on 64-bit words, ranges found through the
+     CompressionTable transcription (WFile.v; proved equal under chunk_ok) *)
+  let small = List.fold_left (fun a (xs, _) -> a + List.length xs) 0 chunks <= 6000 in
+  (match r with
+   | M.Ok bs when small ->
+     (match M.wfile_bytes_ct d f chunks with
+      | M.Ok bs' when bs' = bs -> ()
+      | _ -> failwith "wfile_bytes_ct differs from file_bytes")
+   | _ -> ());
+  res_str (fun bs -> "ok " ^ hex_of_bytes bs) r
 
 let cmd_rdec d t =
   let bytes = bytes_of_hex (next t) in
@@ -390,6 +400,10 @@ let cmd_wordops t =
              (* the Rust method calls refresh_if_needed before it fails; Words.v returns no state on Err *)
              set (M.rd_refresh !i !j); kind_str e
            | M.Panic -> "panic")
+        | "T" ->
+          (* read_prefix_table_idx (Huff.v): bits read / table index; the position may end a word too far *)
+          res_out (M.rd_read_prefix_table_idx !words !i !j !total n)
+            (fun ((br, idx), st) -> set st; Printf.sprintf "%s/%s" (string_of_n br) (string_of_n idx))
         | _ -> failwith ("bad wordops reader op " ^ op) in
       outs := Printf.sprintf "%s@%s" out (string_of_n (M.rd_bit_idx !i !j)) :: !outs
     end
